@@ -62,6 +62,6 @@ for p in props:
         b = TT.index("{NPREV} earlier rounds")
         TT = TT[:a] + SIMPLE_TASK + "\n" + "Earlier rounds already produced the changes listed below for this property; do not repeat any of them (same site AND same slip).\n{PREV}" + TT[TT.index("Read the source first"):]
         TT = TT.replace("for change number k = 1..3", "for change number k = 1..5").replace("{NPREV}", "")
-    txt = TT.format(R=R, ID=ID, title=p["title"], statement=p["statement"], quant=q, NPREV=["No", "One", "Two", "Three", "Four", "Five", "Six"][R - 1], PREV="\n".join(prev) + "\n")
+    txt = TT.format(R=R, ID=ID, title=p["title"], statement=p["statement"], quant=q, NPREV=(["No", "One", "Two", "Three", "Four", "Five", "Six", "Seven", "Eight", "Nine"] + ["Many"] * 20)[R - 1], PREV="\n".join(prev) + "\n")
     open(os.path.join(out, ID + ".txt"), "w").write(txt)
 print(out, len(props))
